@@ -4,7 +4,9 @@ import (
 	"encoding/json"
 	"errors"
 	"fmt"
+	"github.com/twpayne/go-geom/encoding/igc"
 	"math"
+	"strings"
 
 	"github.com/twpayne/go-geom"
 
@@ -16,7 +18,8 @@ import (
 
 type c01Case struct {
 	G      *ref.G `json:"g"`
-	Mode   string `json:"mode"` // setcoords | flat | push | maybeempty | mismatch | mismatch2 | selfalias
+	Mode   string `json:"mode"`           // setcoords | flat | push | maybeempty | mismatch | mismatch2 | selfalias | igc
+	Text   string `json:"text,omitempty"` // igc mode: the file
 	Pos2   int    `json:"pos2,omitempty"`
 	Pos    int    `json:"pos,omitempty"`
 	BadLen int    `json:"bad_len,omitempty"` // mismatch: -1 = nil coordinate, else length
@@ -26,8 +29,20 @@ func init() {
 	engine.Register(&engine.Check{
 		ID: "C01", Level: "exploration",
 		Rule: "every shape of the universe U (7 types x layouts XY,XYZ,XYM,XYZM,Layout(5),Layout(7) + NoLayout empties; part sizes 0..2, <=3 parts, <=3 (quick 2) polygons of <=2 rings) built by SetCoords, by New*Flat from the model's own flattening, by Push and (points) by NewPointFlatMaybeEmpty, plus Clone; special-float sweep (9 values x every ordinate position); larger structures (5..65 polygons/parts, lines of 200..2600 coordinates) in four layouts; every single-coordinate length mismatch (stride-1, stride+1, 0, nil) at every position. distinct_nontrivial = distinct (model, mode, mismatch) cases with at least one coordinate or one part",
-		Run:    c01Run,
-		Replay: func(c *engine.Ctx, kind string, raw json.RawMessage) { c01Exec(c, decodeCase[c01Case](raw)) },
+		Run:  c01Run,
+		Replay: func(c *engine.Ctx, kind string, raw json.RawMessage) {
+			cs := decodeCase[c01Case](raw)
+			if kind == "igc" {
+				t, err := igc.Read(strings.NewReader(cs.Text))
+				if t != nil && t.LineString != nil {
+					if werr := ref.WellFormed(t.LineString); werr != nil {
+						c.Violate("igc/ill-formed", fmt.Sprintf("err=%v: %v", err, werr), "igc", cs)
+					}
+				}
+				return
+			}
+			c01Exec(c, cs)
+		},
 		Assumptions: []string{
 			"Observation only through Layout/Stride/FlatCoords/Ends/Endss/Coords; well-formedness restated from the property text in ref.WellFormed",
 			"Float bit patterns beyond the 9 special values are represented by their class (ordinates are copied, never computed on)",
@@ -36,6 +51,7 @@ func init() {
 }
 
 func c01Run(c *engine.Ctx) {
+	c01IGC(c)
 	maxPolys := 2
 	if c.Thorough() {
 		maxPolys = 3
@@ -156,6 +172,55 @@ func c01Run(c *engine.Ctx) {
 	})
 	if c.Get("mismatch_rejected") == 0 || c.Get("roundtrip_ok") == 0 {
 		c.Warn("vacuous: no mismatch rejected or no round trip compared")
+	}
+}
+
+// c01IGC: the IGC reader returns the track decoded so far TOGETHER with an error, so the
+// geometry must be well formed on the error path too. Every single-column substitution of a
+// B record (with and without an I-record extension) by each of a few characters, and every
+// truncation, followed by two more valid fixes.
+func c01IGC(c *engine.Ctx) {
+	heads := [][]string{
+		{"AXXX001", "HFDTE150785"},
+		{"AXXX001", "HFDTE150785", "I013637LAD"},
+		{"AXXX001", "HFDTE150785", "I033637LAD3839LOD4042TDS"},
+	}
+	bs := []string{"B1101015206343N00006198WA0058700558", "B1101015206343N00006198WA005870055812", "B1101015206343N00006198WA0058700558123456"}
+	tail := []string{"B1101025206344N00006199WA0058800559", "B1101035206345N00006200WA0058900560"}
+	for hi, head := range heads {
+		b := bs[hi]
+		tl := make([]string, len(tail))
+		for i, x := range tail {
+			tl[i] = x + b[35:]
+		}
+		var variants []string
+		for col := 0; col < len(b); col++ {
+			for _, r := range []string{"-", "A", " ", "\x80", "9", "S", "W"} {
+				variants = append(variants, b[:col]+r+b[col+1:])
+			}
+			variants = append(variants, b[:col])
+		}
+		for _, v := range variants {
+			c.Count("evaluations", 1)
+			text := strings.Join(append(append(append([]string{}, head...), v), tl...), "\r\n") + "\r\n"
+			var t *igc.T
+			var err error
+			if p, _ := engine.Guard(func() { t, err = igc.Read(strings.NewReader(text)) }); p != nil {
+				c.Violate("igc/panic", fmt.Sprintf("igc.Read panicked on %q: %v", text, p), "igc", c01Case{Mode: "igc", Text: text})
+				continue
+			}
+			if t == nil || t.LineString == nil {
+				continue
+			}
+			if werr := ref.WellFormed(t.LineString); werr != nil {
+				c.Violate("igc/ill-formed", fmt.Sprintf("igc.Read(%q) returned (err=%v) a LineString that is not well formed: %v", text, err, werr), "igc", c01Case{Mode: "igc", Text: text})
+				continue
+			}
+			if err != nil {
+				c.Count("igc_error_path_tracks", 1)
+			}
+			c.Count("igc_tracks_ok", 1)
+		}
 	}
 }
 
@@ -476,6 +541,56 @@ func c01Exec(c *engine.Ctx, cs c01Case) {
 	if cl := cloneOf(t); cl != nil {
 		if !check(cl, "clone-") {
 			return
+		}
+	}
+	// Clone, then grow BOTH values by parts of different sizes: each must stay well formed and read
+	// back its own parts (offset slices that share spare capacity overwrite each other's entries)
+	if cl := cloneOf(t); cl != nil && g.Layout != geom.NoLayout && cs.Mode != "maybeempty" {
+		for _, order := range [][2]int{{2, 3}, {3, 2}} {
+			t2, cl2 := cloneOf(t), cloneOf(t)
+			if cs.Mode == "push" || cs.Mode == "flat" {
+				// keep the construction's own capacity on one side
+				t2 = t
+				cl2 = cloneOf(t)
+			}
+			m1, m2 := g.Clone(), g.Clone()
+			grown := false
+			if p, _ := engine.Guard(func() {
+				grown = pushPartN(t2, m1, order[0], 1) && pushPartN(cl2, m2, order[1], 2) && pushPartN(t2, m1, order[1], 3)
+			}); p != nil {
+				fail("clone-push-panic", fmt.Sprintf("panic %v", p))
+				return
+			}
+			if !grown {
+				break
+			}
+			for k, pair := range []struct {
+				t geom.T
+				m *ref.G
+			}{{t2, m1}, {cl2, m2}} {
+				if werr := ref.WellFormed(pair.t); werr != nil {
+					fail("clone-push-ill-formed", fmt.Sprintf("after Clone and a Push on both values, value %d: %v", k, werr))
+					return
+				}
+				if d := observeEq(pair.t, pair.m, ref.EqualOpt{}); d != "" {
+					fail("clone-push-lossy", fmt.Sprintf("after Clone and a Push on both values, value %d: %s", k, d))
+					return
+				}
+			}
+			if t2 == t {
+				// t was grown: rebuild it for the second order
+				var berr error
+				switch cs.Mode {
+				case "push":
+					t, berr = buildPush(g)
+				case "flat":
+					t = buildFlat(g)
+				}
+				if berr != nil || t == nil {
+					break
+				}
+			}
+			c.Count("clone_push_ok", 1)
 		}
 	}
 	c.Count("roundtrip_ok", 1)
